@@ -518,8 +518,14 @@ class TracerMixin:
         # If starting from an empty `Trace`, `reset`ting the `Trace` or
         # recording other variables than the existing `Trace` holds (one array
         # cannot hold both sets), re-initialise the variable
+        # (a period added by `reindex()` holds the fill value, not a `Trace`)
         current = self[self.TRACE_NAME][t]
-        if current.is_empty() or reset or list(current.names) != names:
+        if (
+            not isinstance(current, Trace)
+            or current.is_empty()
+            or reset
+            or list(current.names) != names
+        ):
             self[self.TRACE_NAME][t] = Trace(names)
 
         # Add the results to the `Trace`
